@@ -238,6 +238,8 @@ def pyclass_of(I, v: SV, node):
             return "TagList"
         if v.sort == "AttrList":
             return "TagAttrDict"
+        if v.sort == "Dep":
+            return "HTMLDependency"
         if v.sort == "Node":
             names = ["El", "Txt", "Raw", "Md", "Rp", "Ob"]
             i = I.choose([I.is_c(n, v.t) for n in names])
